@@ -15,7 +15,7 @@
    `comment_flag_fixed = true`); for the pinned code the central statement is false, see
    C08_ws_filter_spec_refuted_pinned. *)
 From TeraV Require Import Model.Value Model.Utf8 Model.Lexer Spec.Doc Model.LexerDoc
-  Proofs.Utf8Proofs Proofs.WsFilterProofs Proofs.LexerProofs.
+  Proofs.Utf8Proofs Proofs.WsFilterProofs Proofs.LexerProofs Proofs.LexerSpans.
 Require Import Coq.Strings.String Coq.Strings.Ascii.
 
 (* validate accepts exactly: six 2-byte strings, the three start delimiters pairwise distinct *)
@@ -104,6 +104,23 @@ Theorem C08_ws_patterns_are_white_space : forall cp, (cp <? 0x3100)%N = true ->
   is_ws_cp cp = match ws_strip (utf8_encode_cp cp) with Some (_, []) => true | _ => false end.
 Proof. exact ws_patterns_are_white_space. Qed.
 
+(* ---- about the full token stream (reused by C06 / C12) *)
+
+(* the span bookkeeping of `advance!` (line, column in characters, byte) is the line/column
+   function of the source at the cumulative token offsets: line = 1 + newlines before the offset,
+   column = characters since the last newline *)
+Theorem C08_spans_are_linecol : forall src ts,
+  spans_from src loc0 ts
+  = map (fun '(t, (s, e)) => (t, (linecol src s, linecol src e)))
+        (combine (map tok_of ts) (offsets 0 ts)).
+Proof. exact spans_are_linecol. Qed.
+
+(* every byte range of a successful run is well-ordered and lies inside the source *)
+Theorem C08_token_ranges_in_source : forall dl src pt s e,
+  validate dl = ROk tt -> lex_ptoks dl src = ROk pt -> In (s, e) (offsets 0 pt) ->
+  (s <= e /\ e <= List.length src)%nat.
+Proof. exact token_ranges_in_source. Qed.
+
 Print Assumptions C08_validate_spec.
 Print Assumptions C08_lex_print.
 Print Assumptions C08_ws_filter_spec.
@@ -111,6 +128,8 @@ Print Assumptions C08_ws_filter_spec_refuted_pinned.
 Print Assumptions C08_render_print_spec.
 Print Assumptions C08_no_start_delimiter_renders_itself.
 Print Assumptions C08_delimiter_respelling_invariant.
+Print Assumptions C08_spans_are_linecol.
+Print Assumptions C08_token_ranges_in_source.
 
 (* ---------------------------------------------------------------- non-vacuity *)
 
